@@ -14,11 +14,12 @@ the union arm.  Types outside the universe's shapes are not decided.
 from __future__ import annotations
 
 import ast
+import re
 import collections
 
 from sa.checks._typemodel import BASES, Model, ancestors
 from sa.engine import peval
-from sa.engine.index import AnalysisError, norm, own_nodes
+from sa.engine.index import AnalysisError, last_attr, norm, own_nodes
 
 TS = "pynguin.analyses.typesystem"
 
@@ -48,6 +49,24 @@ def report_grouped(ctx, rule, anchor, law, violations, explain):
         ctx.fail(rule, anchor, f"{law} fails for {len(vs)} pair(s) of shape [{sig}], e.g. {ex}", stmt=f"[{law}] {sig}")
 
 
+def _edges_from_own_bases(ctx, repo) -> None:
+    """The inheritance graph gets, for every analysed class, edges to that class's own direct bases."""
+    MODM = "pynguin.analyses.module"
+    fn = repo.func(MODM, "__analyse_included_classes")
+    ctx.analysed(fn)
+    loops = [lp for lp in own_nodes(fn) if isinstance(lp, ast.For) and any(isinstance(c, ast.Call) and last_attr(c) == "add_subclass_edge" for c in ast.walk(lp))]
+    if not loops:
+        raise AnalysisError("__analyse_included_classes: the loop that adds subclass edges was not found")
+    for lp in loops:
+        it = norm(lp.iter)
+        own = re.fullmatch(r"(\w+)\.__bases__", it) is not None
+        inherited_attr = "__orig_bases__" in it and not re.search(r"__dict__|vars\(", it)
+        ctx.check("C25.edges", lp, own or ("__bases__" in it and not inherited_attr) or ("__orig_bases__" in it and not inherited_attr), f"subclass edges are drawn from `{it[:80]}`: `__orig_bases__` is an ordinary class attribute and is inherited, so a class without parametrised bases of its own (class SortedIntList(IntList) below class IntList(list[int])) gets the bases of an ancestor - its real direct base is missing from the graph and is_subclass / is_subtype disagree with issubclass", what=f"edges from {it[:40]}", stmt="[bases]")
+        edge = next(c for c in ast.walk(lp) if isinstance(c, ast.Call) and last_attr(c) == "add_subclass_edge")
+        kw = {k.arg: norm(k.value) for k in edge.keywords}
+        ctx.check("C25.edges", edge, "super_class" in kw and "sub_class" in kw and kw["super_class"] != kw["sub_class"] and "base" in kw["super_class"], f"add_subclass_edge({kw}) does not connect the base (super_class) with the analysed class (sub_class)", what="edge base -> analysed class", stmt="[direction]")
+
+
 def check(ctx) -> None:
     repo = ctx.repo
     ctx.rule("C25.reflexive", "is_subtype(T, T) for every T of the universe", floor=30)
@@ -55,6 +74,8 @@ def check(ctx) -> None:
     ctx.rule("C25.any-top", "is_subtype(T, Any) and is_maybe_subtype(T, Any) for every T", floor=30)
     ctx.rule("C25.union-all", "a union is a subtype of T exactly when all its members are; a maybe-subtype when some member is", floor=100)
     ctx.rule("C25.union-target", "a non-union type is a subtype of a union exactly when it is a subtype of some member - with the strict relation for is_subtype, the lenient one for is_maybe_subtype (unions nested in tuples included)", floor=100)
+    ctx.rule("C25.edges", "the inheritance graph gets, for every analysed class, edges from its own direct bases (`cls.__bases__`; never an inheritable attribute such as __orig_bases__ read through getattr) in the direction base -> class", floor=2)
+    _edges_from_own_bases(ctx, repo)
     ctx.rule("C25.class-agree", "Instance(X) <: Instance(Y) iff X is a (transitive) subclass of Y in the model hierarchy incl. the numeric tower", floor=100)
     ctx.rule("C25.maybe-superset", "is_subtype(A, B) implies is_maybe_subtype(A, B)", floor=1)
     ctx.rule("C25.distance-defined", "subtype_distance(T, S) is defined only when S may be a subtype of T", floor=1)
